@@ -14,19 +14,26 @@ for line in open(os.path.join(ROOT, "seeded", "RESULTS.jsonl")):
     # prefer the repo-apply mode, else the latest
     if prev is None or r["mode"] == "repo-apply" or prev["mode"] != "repo-apply":
         rows[key] = r
+def own(patch, check):
+    return os.path.basename(os.path.dirname(patch) if patch.startswith("seeded/") else patch).startswith(check)
 def clean(k):
     k = re.sub(r"panic@/tmp/mutwt/", "panic@", k)
     return k
 out = ["| patch | origin | check | tier | verdict | mode | first violation keys |", "|---|---|---|---|---|---|---|"]
 for (patch, check), r in sorted(rows.items(), key=lambda kv: (kv[0][1], kv[0][0])):
     origin = "independent seed" if patch.startswith("seeded/") else "author/own mutant"
+    if not own(patch, check):
+        origin += " (cross-check: seeded for another property)"
     keys = [clean(k) for k in r.get("keys", "").split(";") if k][:3]
     out.append("| `%s` | %s | %s | %s | **%s** | %s @%s | %s |" % (patch.replace("seeded/", "").replace("mutants/", "").replace("/patch.diff", ""), origin, check, r["tier"], r["result"], r["mode"], r["repo_head"], "<br>".join("`%s`" % k[:110] for k in keys)))
-n_seed = sum(1 for (p, c) in rows if p.startswith("seeded/"))
-n_seed_det = sum(1 for (p, c), r in rows.items() if p.startswith("seeded/") and r["result"] == "DETECTED")
-n_mut = len(rows) - n_seed
+n_seed = sum(1 for (p, c) in rows if p.startswith("seeded/") and own(p, c))
+n_seed_det = sum(1 for (p, c), r in rows.items() if p.startswith("seeded/") and own(p, c) and r["result"] == "DETECTED")
+n_mut = sum(1 for (p, c) in rows if not p.startswith("seeded/"))
 n_mut_det = sum(1 for (p, c), r in rows.items() if not p.startswith("seeded/") and r["result"] == "DETECTED")
-summary = "Independent seeds: %d/%d detected; authors'/own mutants: %d/%d detected (latest run of each patch)." % (n_seed_det, n_seed, n_mut_det, n_mut)
+n_cross = sum(1 for (p, c) in rows if p.startswith("seeded/") and not own(p, c))
+n_cross_det = sum(1 for (p, c), r in rows.items() if p.startswith("seeded/") and not own(p, c) and r["result"] == "DETECTED")
+summary = "Independent seeds: %d/%d detected by the check of the property they were seeded for; authors'/own mutants: %d/%d detected (latest run of each patch)." + " Cross-checks (a seed run against another property's check): %d run, %d detected there too." % (n_cross, n_cross_det)
+summary = summary % (n_seed_det, n_seed, n_mut_det, n_mut)
 p = os.path.join(ROOT, "DESIGN.md")
 s = open(p).read()
 a = s.index("<!-- DETECTION-TABLE-BEGIN -->"); b = s.index("<!-- DETECTION-TABLE-END -->")
